@@ -393,7 +393,7 @@ def write_replay(check, tier, v, batch_seed):
     doc = {'property': check.ID, 'check': check.ID.lower(), 'tier': tier, 'seed': v['seed'],
            'batch_seed': batch_seed, 'run_index': v['run'], 'tree_digest': tree_digest(),
            'choices': v['record'], 'violation': {'cls': v['violation']['cls'], 'msg': v['violation']['msg']},
-           'explained': v['violation'].get('explained'), 'shrink': v.get('shrink')}
+           'explained': v['violation'].get('explained'), 'shrink': v.get('shrink'), 'custom': v.get('custom')}
     with open(path, 'w') as f:
         json.dump(doc, f, indent=1, default=repr)
     return path
@@ -444,6 +444,15 @@ def cmd_check(check_name, tier, max_runs=None):
     if harness is not None:
         print('HARNESS-ERROR run=%s seed=%s\n%s' % (harness['run'], harness['seed'], harness['trace']))
         return 2
+    if not violations and hasattr(check, 'post_batch'):
+        try:
+            st, v = check.post_batch(tier, batch_seed, agg)
+        except Exception:
+            print('HARNESS-ERROR: %s' % traceback.format_exc())
+            return 2
+        agg['stats'].update(st)
+        if v is not None:
+            violations.append(v)
     known = load_known_findings()
     for k, v in sorted(agg['known'].items()):
         print('KNOWN-FINDING: property=%s key=%s seen=%d first_seed=%d %s' % (
@@ -456,13 +465,14 @@ def cmd_check(check_name, tier, max_runs=None):
         budget = 10 if tier == 'quick' else 60
         budget = float(os.environ.get('VERIF_SHRINK_S', budget))
         before = sum(len(x) for x in v['record'].values())
-        rec, res, attempts = shrink(check, tier, v['record'], v['violation']['cls'], budget,
-                                    getattr(check, 'STREAM_ORDER', None))
-        if res is not None:
-            v['record'] = rec
-            v['violation'] = res.violation
-        v['shrink'] = {'choices_before': before, 'choices_after': sum(len(x) for x in v['record'].values()),
-                       'attempts': attempts}
+        if v.get('custom') is None:
+            rec, res, attempts = shrink(check, tier, v['record'], v['violation']['cls'], budget,
+                                        getattr(check, 'STREAM_ORDER', None))
+            if res is not None:
+                v['record'] = rec
+                v['violation'] = res.violation
+            v['shrink'] = {'choices_before': before, 'choices_after': sum(len(x) for x in v['record'].values()),
+                           'attempts': attempts}
         path = write_replay(check, tier, v, batch_seed)
         print('violation class=%s seed=%d run=%d: %s' % (v['violation']['cls'], v['seed'], v['run'],
                                                          v['violation']['msg']))
@@ -478,6 +488,13 @@ def cmd_check(check_name, tier, max_runs=None):
 def cmd_replay(path):
     doc = json.load(open(path))
     check = load_check(doc['check'])
+    if doc.get('custom'):
+        if check.replay_custom(doc):
+            print('REPRODUCED-EXACTLY')
+            print('VIOLATION property=%s replay=%s' % (doc['property'], path))
+            return 1
+        print('NOT REPRODUCED')
+        return 0
     res, used = run_one(check, doc.get('tier', 'quick'), record=doc['choices'])
     if res.violation is None:
         print('NOT REPRODUCED (no violation) tree=%s recorded_tree=%s' % (tree_digest(), doc.get('tree_digest')))
